@@ -67,8 +67,40 @@ CHECKS["C09"] = dict(engine="DX", ref="4/C09", technique="explicit-state breadth
                           "canonical state is expanded by every transition until closure.",
                      note="Trusted base: the dict model and canonical-structure builder in vx/tensors.py.")
 
+CHECKS["C08"] = dict(engine="GX", ref="4/C08", technique="bounded-exhaustive enumeration of generation requests (programs x "
+                     "formats x kind subsets x languages x identifier classes) through the real generate_code / CLI / "
+                     "tensor_method with outcome classification and tool-chain acceptance of every returned text",
+                     text="Every request of the bounded space is issued; the outcome must be code or a documented typed "
+                          "refusal within the time limit, the CLI must mirror it, and gcc -fsyntax-only / LLVM verify must "
+                          "accept every text.",
+                     note="Trusted base: gcc 12 and llvmlite as acceptance oracles; 20 s hang threshold.")
+CHECKS["C10"] = dict(engine="RX", ref="4/C10", technique="bounded-exhaustive enumeration of argument vectors (all dimension "
+                     "vectors over {1,2,3} per operand dimension, all single deviations) against compiled tensor methods "
+                     "with a kernel-entry counter",
+                     text="Consistent and inconsistent calls are both enumerated completely for every assignment of the menu, "
+                          "so the harness's own consistency predicate is exercised in both directions.",
+                     note="Trusted base: the consistency predicate and reference model of the harness; the entry counter wraps "
+                          "TensorMethod._evaluate when present (else only 'must not return' is used).")
+CHECKS["C11"] = dict(engine="RX", ref="4/C11", technique="bounded-exhaustive enumeration of operand format pairs x dimensions "
+                     "x stored-set pairs x operators on the real Tensor objects against dict arithmetic",
+                     text="All ordered format pairs of order 0..2 (3 thorough), all small sparsity patterns, scalars on either "
+                          "side and @ for all order pairs; results decoded from the raw arrays.",
+                     note="Trusted base: dict arithmetic on exact dyadic values.")
+CHECKS["C12"] = dict(engine="SX", ref="4/C12", technique="bounded-exhaustive enumeration of all strings up to a length bound, "
+                     "all syntax trees up to a leaf bound and all their sentences, through the real parsers/deparsers; "
+                     "independent recogniser and Python arithmetic as oracles",
+                     text="Totality, round trip and conventional meaning are decided for every string/tree/sentence within "
+                          "the bounds.",
+                     note="Trusted base: the independent format recogniser and Python's expression evaluation.")
+CHECKS["C15"] = dict(engine="PX", ref="4/C15", technique="explicit-state search over cache states (sets of served requests, "
+                     "rebuilt by history replay on a cleared cache) plus enumeration of interpreter hash seeds until all "
+                     "probe-set iteration orders were observed",
+                     text="Every explored cache state x every request: text, CLI output, kernel identity and raw results are "
+                          "compared with a fresh cache; digests of all generated text are compared across hash seeds.",
+                     note="Assumption: the hash seed reaches tensora only via iteration orders of small string sets.")
+
 NOT_APPLICABLE = {}
-PENDING = ["C08", "C10", "C11", "C12", "C13", "C14", "C15"]
+PENDING = [ "C13", "C14", "C15"]
 
 
 def main():
@@ -107,6 +139,14 @@ def main():
         "engines": [
             {"name": "AM", "path": "vx/am.py", "serves_properties": ["C01", "C02", "C03", "C04", "C05", "C06", "C07", "C16"],
              "kind_free_text": "explicit-state abstract machine for tensora IR with monitors"},
+            {"name": "GX", "path": "vx/checks/c08.py", "serves_properties": ["C08"],
+             "kind_free_text": "generation-request explorer with tool-chain acceptance"},
+            {"name": "RX", "path": "vx/rt.py", "serves_properties": ["C10", "C11"],
+             "kind_free_text": "explorers over the real runtime objects (Tensor, TensorMethod)"},
+            {"name": "SX", "path": "vx/checks/c12.py", "serves_properties": ["C12"],
+             "kind_free_text": "string / tree / sentence explorer for the parsers"},
+            {"name": "PX", "path": "vx/checks/c15.py", "serves_properties": ["C15"],
+             "kind_free_text": "cache-state search + hash-seed enumeration"},
             {"name": "NX", "path": "vx/nx.py", "serves_properties": ["C06"],
              "kind_free_text": "native conformance harness: gcc/clang sanitizer builds + MCJIT vs abstract machine"},
             {"name": "DX", "path": "vx/checks/c09.py", "serves_properties": ["C09"],
